@@ -4,6 +4,7 @@ A program from the `classic` (functions calling each other WITH arguments) or `c
 generics with generic bases, statics, functions used by methods) and, optionally, one injected semantic
 violation, is rendered under several permutations of its top-level function and class declarations
 (all permutations when <= 4 declarations, else sampled, always including the reverse order).
+A third family (gb_case) instantiates bounded generic classes in member signatures with classes declared anywhere.
 A second family (rt_case) uses functions of assorted return types - in other functions and in class methods, well-typed and
 ill-typed - in ways whose checking needs the callee's return type, and permutes those declarations.
 Oracle: accepted/rejected and the diagnostic CATEGORY are identical across permutations; when accepted
@@ -152,6 +153,73 @@ def rt_case(draw):
     return {"kind": "rt", "decls": decls, "deps": deps, "perms": perms}
 
 
+# ------------------------------------------------------------------ bounded-generics family
+# A small hierarchy, generic classes with bounds, and classes / functions whose member SIGNATURES (fields, parameters, return
+# types, bounds) instantiate them with classes that may be declared anywhere.  Satisfied and violated bounds are both drawn.
+
+GB_HIER = ["Base0", "Mid0", "Leaf0", "Other0"]
+
+
+@st.composite
+def gb_case(draw):
+    decls = [{"name": "Base0", "text": "class Base0 { public int tag = 1; public constructor() -> Base0 { return this; } }"},
+             {"name": "Mid0", "text": "class Mid0 extends Base0 { public constructor() -> Mid0 { super(); return this; } }"},
+             {"name": "Leaf0", "text": "class Leaf0 extends Mid0 { public constructor() -> Leaf0 { super(); return this; } }"},
+             {"name": "Other0", "text": "class Other0 { public int tag = 9; public constructor() -> Other0 { return this; } }"}]
+    bound = draw(st.sampled_from(["Base0", "Mid0", "Leaf0"]))
+    decls.append({"name": "G", "text": f"class G<T extends {bound}> {{ public T item; public constructor(T x) -> G<T> {{ this.item = x; return this; }} "
+                                       f"public function get() -> T {{ return this.item; }} }}"})
+    two = draw(st.booleans())
+    if two:
+        b2 = draw(st.sampled_from(["Base0", "Mid0"]))
+        decls.append({"name": "G2", "text": f"class G2<K, V extends {b2}> {{ public K key; public V val; public constructor(K k, V v) -> G2<K, V> "
+                                            f"{{ this.key = k; this.val = v; return this; }} }}"})
+    deps = []
+    users = []
+    for j in range(draw(st.integers(1, 3))):
+        arg = draw(st.sampled_from(GB_HIER))
+        form = draw(st.sampled_from(["field", "param", "ret", "ctor_param", "fn_ret", "fn_param", "bound"] + (["field2"] if two else [])))
+        inst = f"G<{arg}>"
+        mk = f"new G<{arg}>(new {arg}())"
+        name = f"U{j}"
+        if form == "field":
+            text = f"class {name} {{ public {inst} g; public constructor() -> {name} {{ this.g = {mk}; return this; }} public function t() -> int {{ return this.g.get().tag; }} }}"
+            use = f"{name} u{j} = new {name}(); echo(u{j}.t());"
+        elif form == "field2":
+            text = (f"class {name} {{ public G2<string, {arg}> g; public constructor() -> {name} {{ this.g = new G2<string, {arg}>(\"k\", new {arg}()); "
+                    f"return this; }} public function t() -> int {{ return this.g.val.tag; }} }}")
+            use = f"{name} u{j} = new {name}(); echo(u{j}.t());"
+        elif form == "param":
+            text = f"class {name} {{ public constructor() -> {name} {{ return this; }} public function t({inst} p) -> int {{ return p.get().tag; }} }}"
+            use = f"{name} u{j} = new {name}(); echo(u{j}.t({mk}));"
+        elif form == "ret":
+            text = f"class {name} {{ public constructor() -> {name} {{ return this; }} public function mk() -> {inst} {{ return {mk}; }} }}"
+            use = f"{name} u{j} = new {name}(); echo(u{j}.mk().get().tag);"
+        elif form == "ctor_param":
+            text = f"class {name} {{ public int t; public constructor({inst} p) -> {name} {{ this.t = p.get().tag; return this; }} }}"
+            use = f"{name} u{j} = new {name}({mk}); echo(u{j}.t);"
+        elif form == "fn_ret":
+            text = f"function mk{j}() -> {inst} {{ return {mk}; }}"
+            use = f"echo(mk{j}().get().tag);"
+            name = f"mk{j}"
+        elif form == "fn_param":
+            text = f"function take{j}({inst} p) -> int {{ return p.get().tag; }}"
+            use = f"echo(take{j}({mk}));"
+            name = f"take{j}"
+        else:  # a bound that is itself a later-declared class
+            text = f"class {name}<W extends {arg}> {{ public W w; public constructor(W x) -> {name}<W> {{ this.w = x; return this; }} }}"
+            use = f"{name}<{arg}> u{j} = new {name}<{arg}>(new {arg}()); echo(u{j}.w.tag);"
+        decls.append({"name": name, "text": text})
+        deps.append((name, arg))
+        deps.append((name, "G"))
+        users.append(use)
+    decls.append({"name": "main", "text": "function main() -> void { " + " ".join(users) + " }"})
+    n = len(decls)
+    ident = list(range(n))
+    perms = [ident, ident[::-1]] + [list(draw(st.permutations(ident))) for _ in range(4)]
+    return {"kind": "rt", "family": "bounded_generics", "decls": decls, "deps": deps, "perms": perms}
+
+
 class C10(Check):
     prop = "C10"
     rule = ("programs with inter-function calls carrying arguments / class hierarchies; all (<=4 decls) or sampled permutations "
@@ -187,12 +255,12 @@ class C10(Check):
             if any(pos[a] < pos[b] for a, b in case["deps"]):
                 nt = True
             if obs != base[1]:
-                return {"why": "declaration order changed the outcome (use of a function's return type)", "order": order,
+                return {"why": "declaration order changed the outcome (" + case.get("family", "return_type") + " family)", "order": order,
                         "original": base[1], "permuted": obs, "diag": r.diag, "source_original": base[0], "source_permuted": src}
         if stats is not None:
             acc = base[1]["cat"] is None
             stats.record(case, nt, sample={"source": base[0], "perms": case["perms"][:2]} if len(base[0]) < 1500 else None,
-                         tags=["return_type_family", "rt_accepted" if acc else "rt_rejected_in_every_order"])
+                         tags=[case.get("family", "return_type") + "_family", "rt_accepted" if acc else "rt_rejected_in_every_order"])
         return None
 
     def run_case(self, case, sc, stats=None):
@@ -261,6 +329,9 @@ def _worker(widx, wseed, tier, check):
             if f:
                 failures.append(f)
         f = hyp_search(rt_case(), prop, common.derive_seed(wseed, "rt"), 80 if quick else 2000, stats)
+        if f:
+            failures.append(f)
+        f = hyp_search(gb_case(), prop, common.derive_seed(wseed, "gb"), 60 if quick else 1500, stats)
         if f:
             failures.append(f)
     return {"stats": stats.export(), "failures": failures}
